@@ -16,6 +16,8 @@
 //!   let mut B = <..>::Request::builder() {.uri(E) | .method(E) | .header(K, HeaderValue::from_static(CONST))}*;
 //!   let S = p.and_then(|v| if [!]v.is_empty() { X } else { Y });      {X, Y} = {Some(J), None},
 //!                                        J = v.iter().map(|s| M).collect[::<..>]().join("lit")
+//!     or the fold it stands for: `let mut S = None; if let Some(xs) = p { for x in xs { match S { None => S = Some(M),
+//!                                        Some(ref mut j) => { j.push('c') | j.push_str("lit"); j.push_str(M); } } } }`   (join_fold)
 //!   let mut P [: T] = p;                                              the accumulator starts as parameter p
 //!   P.push(("lit", V));   |   if let Some([ref] x) = E { P.push(("lit", V)); .. }
 //!   match (p, q) { arm* }      arm  := pat [| pat]* => { (let | push | if-let-push | B = B.header(K, HV);)* }
@@ -24,6 +26,8 @@
 //!                              STR  := format!("..{}..", STR, ..) | ENGINE.encode(STR)
 //!                                    | <..>::byte_serialize(STR.as_bytes()).collect[::<..>]() | E
 //!   P.extend_from_slice(C) | P.extend(C)     C = p.iter().map(|(k, v)| (k.as_ref(), v.as_ref())) {.collect..|.as_slice()}*
+//!     or `for (k, v) in p { P.push((k.as_ref(), v.as_ref())); }`;  `P.reserve(n);` is skipped (capacity only)
+//!   text may also be built in a local String (str_stmt) and the header value by a private function (header_value)
 //!   let x = E;                                                        name for E
 //!   tail: B.body(<..>::Serializer::new(String::new()).extend_pairs(P).finish().into_bytes())
 //! Anything else is a translation failure.
@@ -421,8 +425,176 @@ fn header_name(e: &syn::Expr) -> String {
     canon(strip_ref(e))
 }
 
+/// text being built in a local `String` (`let mut s = String::new(); s.push_str(..); ..`): its pieces so far
+#[derive(Default, Clone)]
+struct StrVars(std::collections::BTreeMap<String, Vec<StrExpr>>);
+
+/// pieces → right-nested concatenation (the shape `format!` pieces get)
+fn fold_pieces(pieces: &[StrExpr]) -> StrExpr {
+    let mut it = pieces.iter().rev();
+    let mut accu = match it.next() {
+        Some(p) => p.clone(),
+        None => return StrExpr::Lit(String::new()),
+    };
+    for p in it {
+        accu = StrExpr::Cat(Box::new(p.clone()), Box::new(accu));
+    }
+    accu
+}
+
+fn flatten(e: StrExpr, out: &mut Vec<StrExpr>) {
+    match e {
+        StrExpr::Cat(a, b) => {
+            flatten(*a, out);
+            flatten(*b, out);
+        }
+        StrExpr::Lit(l) if l.is_empty() => {}
+        other => out.push(other),
+    }
+}
+
+/// `form_urlencoded::byte_serialize(<text>.as_bytes())` → text
+fn byte_serialize_arg(e: &syn::Expr) -> Option<&syn::Expr> {
+    if let syn::Expr::Call(c) = strip(e) {
+        if last_segment(&c.func).as_deref() == Some("byte_serialize") && c.args.len() == 1 {
+            if let syn::Expr::MethodCall(ab) = strip_ref(&c.args[0]) {
+                if ab.method == "as_bytes" && ab.args.is_empty() {
+                    return Some(&ab.receiver);
+                }
+            }
+        }
+    }
+    None
+}
+
+/// a statement that builds text in a local `String`:
+///   let mut s = String::new() | String::with_capacity(..) | String::from("lit") | "lit".to_string();
+///   s.push('c');  s.push_str(STR);  s += STR;  s.extend(<..>::byte_serialize(STR.as_bytes()));  ENGINE.encode_string(STR, &mut s);
+/// → true when the statement was one of these
+fn str_stmt(file: &str, item: &str, env: &Env, vars: &mut StrVars, st: &syn::Stmt) -> R<bool> {
+    match st {
+        syn::Stmt::Local(l) => {
+            if let Some((name, true, init)) = plain_let(l) {
+                let ic = canon(init);
+                if ic == "String::new()" || ic.starts_with("String::with_capacity(") {
+                    vars.0.insert(name, Vec::new());
+                    return Ok(true);
+                }
+                let lit = match strip(init) {
+                    syn::Expr::Call(c) if canon(&c.func) == "String::from" && c.args.len() == 1 => str_lit(&c.args[0]),
+                    syn::Expr::MethodCall(m) if m.args.is_empty() && matches!(m.method.to_string().as_str(), "to_string" | "to_owned" | "into") => str_lit(&m.receiver),
+                    _ => None,
+                };
+                if let Some(l) = lit {
+                    vars.0.insert(name, vec![StrExpr::Lit(l)]);
+                    return Ok(true);
+                }
+            }
+            Ok(false)
+        }
+        syn::Stmt::Expr(e, _) => {
+            match strip(e) {
+                syn::Expr::MethodCall(m) => {
+                    let name = m.method.to_string();
+                    if let Some(v) = ident_of(&m.receiver).filter(|v| vars.0.contains_key(v)) {
+                        let mut add = Vec::new();
+                        match (name.as_str(), m.args.len()) {
+                            ("push", 1) => match strip(&m.args[0]) {
+                                syn::Expr::Lit(l) => match &l.lit {
+                                    syn::Lit::Char(c) => add.push(StrExpr::Lit(c.value().to_string())),
+                                    _ => return fail(file, item, format!("`{v}.push('<char literal>')`")),
+                                },
+                                _ => return fail(file, item, format!("`{v}.push('<char literal>')`")),
+                            },
+                            ("push_str", 1) => flatten(str_expr(file, item, env, vars, &m.args[0])?, &mut add),
+                            ("extend", 1) => match byte_serialize_arg(&m.args[0]) {
+                                Some(x) => add.push(StrExpr::ByteSerialize(Box::new(str_expr(file, item, env, vars, x)?))),
+                                None => return fail(file, item, format!("`{v}.extend(<..>::byte_serialize(<text>.as_bytes()))`, found `{}`", canon(&m.args[0]))),
+                            },
+                            ("reserve", 1) => {}
+                            _ => return Ok(false),
+                        }
+                        vars.0.get_mut(&v).unwrap().extend(add);
+                        return Ok(true);
+                    }
+                    // ENGINE.encode_string(STR, &mut s)
+                    if name == "encode_string" && m.args.len() == 2 {
+                        if let (Some(engine), Some(v)) = (last_segment(&m.receiver), ident_of(strip_ref(&m.args[1])).filter(|v| vars.0.contains_key(v))) {
+                            let x = str_expr(file, item, env, vars, &m.args[0])?;
+                            vars.0.get_mut(&v).unwrap().push(StrExpr::Base64(engine, Box::new(x)));
+                            return Ok(true);
+                        }
+                    }
+                    Ok(false)
+                }
+                syn::Expr::Binary(b) if matches!(b.op, syn::BinOp::AddAssign(_)) => {
+                    if let Some(v) = ident_of(&b.left).filter(|v| vars.0.contains_key(v)) {
+                        let mut add = Vec::new();
+                        flatten(str_expr(file, item, env, vars, &b.right)?, &mut add);
+                        vars.0.get_mut(&v).unwrap().extend(add);
+                        return Ok(true);
+                    }
+                    Ok(false)
+                }
+                _ => Ok(false),
+            }
+        }
+        _ => Ok(false),
+    }
+}
+
+/// HV := HeaderValue::from_str(STR)[.unwrap() | .expect(..)]
+///     | h(E, ..)     h a private function of endpoint.rs: `(let x = E; | <text-building statement>)* HV`, read in place
+fn header_value(file: &str, item: &str, src: &syn::File, env: &Env, vars: &StrVars, e: &syn::Expr, depth: usize) -> R<StrExpr> {
+    let (root, calls) = chain(e);
+    if let syn::Expr::Call(c) = root {
+        if canon(&c.func).ends_with("HeaderValue::from_str") && c.args.len() == 1 && calls.len() <= 1 && calls.iter().all(|m| m.method == "unwrap" || m.method == "expect") {
+            return str_expr(file, item, env, vars, &c.args[0]);
+        }
+        if let (Some(hn), true, true) = (ident_of(&c.func), calls.is_empty(), depth > 0) {
+            if let Some(h) = free_fn(src, &hn) {
+                let params = param_names(&h.sig);
+                if matches!(h.vis, syn::Visibility::Inherited) && params.len() == c.args.len() && params.len() == h.sig.inputs.len() {
+                    let mut inner = Env::default();
+                    for (p, a) in params.iter().zip(c.args.iter()) {
+                        inner.map.insert(p.clone(), env.resolve(strip_ref(a)));
+                    }
+                    let mut hv = StrVars::default();
+                    let n = h.block.stmts.len();
+                    for (k, st) in h.block.stmts.iter().enumerate() {
+                        if k + 1 == n {
+                            if let syn::Stmt::Expr(t, None) = st {
+                                return header_value(file, item, src, &inner, &hv, t, depth - 1);
+                            }
+                            if let syn::Stmt::Expr(syn::Expr::Return(r), _) = st {
+                                if let Some(t) = &r.expr {
+                                    return header_value(file, item, src, &inner, &hv, t, depth - 1);
+                                }
+                            }
+                        }
+                        if str_stmt(file, item, &inner, &mut hv, st)? {
+                            continue;
+                        }
+                        match st {
+                            syn::Stmt::Local(l) => match plain_let(l) {
+                                Some((nm, false, init)) => inner.bind(&nm, init),
+                                _ => return fail(file, item, format!("`let x = E;` or a text-building statement in `{hn}`, found `{}`", canon(l))),
+                            },
+                            other => return fail(file, item, format!("`let x = E;` or a text-building statement in `{hn}`, found `{}`", canon(other))),
+                        }
+                    }
+                }
+            }
+        }
+    }
+    fail(file, item, format!("`HeaderValue::from_str(<text>)[.unwrap()]` (directly or as the result of a private function), found `{}`", canon(e)))
+}
+
 /// STR grammar
-fn str_expr(file: &str, item: &str, env: &Env, e: &syn::Expr) -> R<StrExpr> {
+fn str_expr(file: &str, item: &str, env: &Env, vars: &StrVars, e: &syn::Expr) -> R<StrExpr> {
+    if let Some(p) = ident_of(strip_ref(e)).and_then(|id| vars.0.get(&id)) {
+        return Ok(fold_pieces(p));
+    }
     let r = env.resolve(e);
     let e = strip_ref(&r);
     if let Some(l) = str_lit(e) {
@@ -460,11 +632,11 @@ fn str_expr(file: &str, item: &str, env: &Env, e: &syn::Expr) -> R<StrExpr> {
                             None => return fail(file, item, format!("an argument for every `{{}}` of {fmt:?}")),
                         };
                         next += 1;
-                        pieces.push(str_expr(file, item, env, a)?);
+                        pieces.push(str_expr(file, item, env, vars, a)?);
                     } else if lean::ident_ok(&inner) || inner.chars().all(|c| c.is_ascii_alphanumeric() || c == '_') {
                         let id = syn::Ident::new(&inner, proc_macro2::Span::call_site());
                         let a: syn::Expr = syn::parse_quote!(#id);
-                        pieces.push(str_expr(file, item, env, &a)?);
+                        pieces.push(str_expr(file, item, env, vars, &a)?);
                     } else {
                         return fail(file, item, format!("only `{{}}` and `{{name}}` placeholders (plain Display) in {fmt:?}"));
                     }
@@ -497,7 +669,7 @@ fn str_expr(file: &str, item: &str, env: &Env, e: &syn::Expr) -> R<StrExpr> {
         if m.method == "encode" && m.args.len() == 1 {
             if let Some(engine) = last_segment(&m.receiver) {
                 if engine.chars().all(|c| c.is_ascii_uppercase() || c.is_ascii_digit() || c == '_') {
-                    return Ok(StrExpr::Base64(engine, Box::new(str_expr(file, item, env, &m.args[0])?)));
+                    return Ok(StrExpr::Base64(engine, Box::new(str_expr(file, item, env, vars, &m.args[0])?)));
                 }
             }
         }
@@ -507,7 +679,7 @@ fn str_expr(file: &str, item: &str, env: &Env, e: &syn::Expr) -> R<StrExpr> {
                 if last_segment(&c.func).as_deref() == Some("byte_serialize") && c.args.len() == 1 {
                     if let syn::Expr::MethodCall(ab) = strip_ref(&c.args[0]) {
                         if ab.method == "as_bytes" && ab.args.is_empty() {
-                            return Ok(StrExpr::ByteSerialize(Box::new(str_expr(file, item, env, &ab.receiver)?)));
+                            return Ok(StrExpr::ByteSerialize(Box::new(str_expr(file, item, env, vars, &ab.receiver)?)));
                         }
                     }
                     return fail(file, item, format!("`byte_serialize(<text>.as_bytes())`, found `{}`", canon(c)));
@@ -538,7 +710,115 @@ fn sub_pat(file: &str, item: &str, p: &syn::Pat) -> R<(String, Option<String>)> 
     }
 }
 
-fn endpoint(f: &syn::ItemFn, lib: &syn::File) -> R<(Vec<String>, Vec<Stmt>)> {
+/// drops a trailing copy (`.to_string()`, `.to_owned()`, `.clone()`, `String::from(..)`) and text views: what text is meant
+fn text_core(e: &syn::Expr) -> String {
+    let e = text_view(e);
+    match e {
+        syn::Expr::MethodCall(m) if m.args.is_empty() && matches!(m.method.to_string().as_str(), "to_string" | "to_owned" | "clone" | "into_owned") => text_core(&m.receiver),
+        syn::Expr::Call(c) if canon(&c.func) == "String::from" && c.args.len() == 1 => text_core(&c.args[0]),
+        e => canon(e),
+    }
+}
+
+/// the join written as a fold over an `Option<String>` accumulator S (declared `let mut S = None;` just before):
+///   if let Some(xs) = <param> { for x in xs[.iter()] {
+///       match S { None => S = Some(ELEM), Some(ref mut j) => { j.push('c') | j.push_str("sep"); j.push_str(ELEM'); } } } }
+/// ELEM and ELEM' must be the same text of x.  It is `<param>.and_then(|xs| if !xs.is_empty() { Some(xs.iter().map(|x|
+/// ELEM).collect().join(sep)) } else { None })`: nothing for an absent or empty list, otherwise the elements separated by sep.
+fn join_fold(item: &str, acc_name: &str, params: &[String], st: &syn::Stmt) -> R<Option<Stmt>> {
+    let shape = "`if let Some(xs) = <param> { for x in xs { match S { None => S = Some(<elem>), Some(ref mut j) => { j.push(<sep>); j.push_str(<elem>); } } } }`";
+    let i = match st {
+        syn::Stmt::Expr(syn::Expr::If(i), _) if i.else_branch.is_none() => i,
+        _ => return Ok(None),
+    };
+    let (xs, source) = match strip(&i.cond) {
+        syn::Expr::Let(l) => match (pat_some(&l.pat), ident_of(strip_ref(&l.expr)).filter(|p| params.contains(p))) {
+            (Some(xs), Some(src)) => (xs, src),
+            _ => return Ok(None),
+        },
+        _ => return Ok(None),
+    };
+    let fl = match i.then_branch.stmts.as_slice() {
+        [syn::Stmt::Expr(syn::Expr::ForLoop(fl), _)] => fl,
+        _ => return Ok(None),
+    };
+    let x = match pat_binder(&fl.pat) {
+        Some(x) => x,
+        None => return fail(EP, item, shape),
+    };
+    let over = {
+        let (root, calls) = chain(strip_ref(&fl.expr));
+        ident_of(strip_ref(root)).as_deref() == Some(xs.as_str()) && calls.iter().all(|c| c.args.is_empty() && (c.method == "iter" || c.method == "into_iter"))
+    };
+    let m = match fl.body.stmts.as_slice() {
+        [syn::Stmt::Expr(syn::Expr::Match(m), _)] if over => m,
+        _ => return fail(EP, item, shape),
+    };
+    let on_acc = {
+        let sc = strip_ref(&m.expr);
+        let sc = match sc {
+            syn::Expr::MethodCall(mc) if mc.args.is_empty() && (mc.method == "as_mut" || mc.method == "as_deref_mut") => strip_ref(&mc.receiver),
+            e => e,
+        };
+        ident_of(sc).as_deref() == Some(acc_name)
+    };
+    let (j, some_body, none_body) = match option_match(m) {
+        Some(t) if on_acc => t,
+        _ => return fail(EP, item, shape),
+    };
+    let env = Env::default().with_rename(&x, "it");
+    // None => S = Some(ELEM)
+    let first = match block_expr(none_body) {
+        syn::Expr::Assign(a) if ident_of(&a.left).as_deref() == Some(acc_name) => match strip(&a.right) {
+            syn::Expr::Call(c) if last_segment(&c.func).as_deref() == Some("Some") && c.args.len() == 1 => env.resolve(&c.args[0]),
+            _ => return fail(EP, item, shape),
+        },
+        syn::Expr::Block(b) => match b.block.stmts.as_slice() {
+            [syn::Stmt::Expr(syn::Expr::Assign(a), _)] if ident_of(&a.left).as_deref() == Some(acc_name) => match strip(&a.right) {
+                syn::Expr::Call(c) if last_segment(&c.func).as_deref() == Some("Some") && c.args.len() == 1 => env.resolve(&c.args[0]),
+                _ => return fail(EP, item, shape),
+            },
+            _ => return fail(EP, item, shape),
+        },
+        _ => return fail(EP, item, shape),
+    };
+    // Some(j) => { j.push(sep); j.push_str(ELEM'); }
+    let stmts = body_stmts(some_body);
+    let call_on_j = |st: &syn::Stmt| -> Option<(String, syn::Expr)> {
+        if let syn::Stmt::Expr(syn::Expr::MethodCall(mc), _) = st {
+            if ident_of(strip_ref(&mc.receiver)).as_deref() == Some(j.as_str()) && mc.args.len() == 1 {
+                return Some((mc.method.to_string(), mc.args[0].clone()));
+            }
+        }
+        None
+    };
+    let (sep, elem2) = match stmts.as_slice() {
+        [a, b] => match (call_on_j(a), call_on_j(b)) {
+            (Some((ma, sa)), Some((mb, eb))) if mb == "push_str" => {
+                let sep = match (ma.as_str(), strip(&sa)) {
+                    ("push", syn::Expr::Lit(l)) => match &l.lit {
+                        syn::Lit::Char(c) => c.value().to_string(),
+                        _ => return fail(EP, item, shape),
+                    },
+                    ("push_str", e) => match str_lit(e) {
+                        Some(l) => l,
+                        None => return fail(EP, item, shape),
+                    },
+                    _ => return fail(EP, item, shape),
+                };
+                (sep, env.resolve(&eb))
+            }
+            _ => return fail(EP, item, shape),
+        },
+        _ => return fail(EP, item, shape),
+    };
+    if text_core(&first) != text_core(&elem2) {
+        return fail(EP, item, format!("the first element `{}` and the later elements `{}` of the joined text to be the same text", canon(&first), canon(&elem2)));
+    }
+    Ok(Some(Stmt::ScopeValue { name: acc_name.to_string(), source, non_empty_only: true, elem: canon(strip_ref(&first)), sep }))
+}
+
+fn endpoint(f: &syn::ItemFn, lib: &syn::File, src: &syn::File) -> R<(Vec<String>, Vec<Stmt>)> {
     let item = "endpoint_request";
     let params = param_names(&f.sig);
     let is_param = |e: &syn::Expr| ident_of(e).filter(|i| params.contains(i));
@@ -546,11 +826,22 @@ fn endpoint(f: &syn::ItemFn, lib: &syn::File) -> R<(Vec<String>, Vec<Stmt>)> {
     let mut out: Vec<Stmt> = Vec::new();
     let mut builder: Option<String> = None;
     let mut acc: Option<String> = None;
+    // `let mut S = None;` waiting for the loop that fills it (join_fold)
+    let mut fold_acc: Option<String> = None;
     let n = f.block.stmts.len();
     if n == 0 {
         return fail(EP, item, "a non-empty body");
     }
     for st in &f.block.stmts[..n - 1] {
+        if let Some(s_name) = fold_acc.take() {
+            match join_fold(item, &s_name, &params, st)? {
+                Some(sv) => {
+                    out.push(sv);
+                    continue;
+                }
+                None => return fail(EP, item, format!("the loop that fills `{s_name}` right after `let mut {s_name} = None;`")),
+            }
+        }
         // pushes
         if let Some(a) = &acc {
             if let Some(ps) = push_stmt(EP, item, &env, a, st)? {
@@ -564,6 +855,10 @@ fn endpoint(f: &syn::ItemFn, lib: &syn::File) -> R<(Vec<String>, Vec<Stmt>)> {
                     Some(x) => x,
                     None => return fail(EP, item, format!("`let [mut] x [: T] = E;`, found `{}`", canon(l))),
                 };
+                if is_mut && ident_of(init).as_deref() == Some("None") {
+                    fold_acc = Some(name);
+                    continue;
+                }
                 if is_mut {
                     // the accumulator
                     if let Some(src) = is_param(init) {
@@ -719,9 +1014,13 @@ fn endpoint(f: &syn::ItemFn, lib: &syn::File) -> R<(Vec<String>, Vec<Stmt>)> {
                             other => vec![syn::Stmt::Expr(other.clone(), None)],
                         };
                         let mut actions = Vec::new();
+                        let mut svars = StrVars::default();
                         for s in &body {
                             if let Some(ps) = push_stmt(EP, item, &aenv, &a, s)? {
                                 actions.extend(ps.into_iter().map(Action::Push));
+                                continue;
+                            }
+                            if str_stmt(EP, item, &aenv, &mut svars, s)? {
                                 continue;
                             }
                             match s {
@@ -740,16 +1039,7 @@ fn endpoint(f: &syn::ItemFn, lib: &syn::File) -> R<(Vec<String>, Vec<Stmt>)> {
                                         Some(h) => h,
                                         None => return fail(EP, item, format!("`{b} = {b}.header(NAME, VALUE);`, found `{}`", canon(asg))),
                                     };
-                                    let (root, calls) = chain(&h.args[1]);
-                                    let inner = match (root, calls.as_slice()) {
-                                        (syn::Expr::Call(c), []) | (syn::Expr::Call(c), [_]) if canon(&c.func).ends_with("HeaderValue::from_str") && c.args.len() == 1 && calls.iter().all(|m| m.method == "unwrap" || m.method == "expect") => Some(&c.args[0]),
-                                        _ => None,
-                                    };
-                                    let inner = match inner {
-                                        Some(i) => i,
-                                        None => return fail(EP, item, format!("`HeaderValue::from_str(<text>)[.unwrap()]`, found `{}`", canon(&h.args[1]))),
-                                    };
-                                    actions.push(Action::Header(header_name(&h.args[0]), str_expr(EP, item, &aenv, inner)?));
+                                    actions.push(Action::Header(header_name(&h.args[0]), header_value(EP, item, src, &aenv, &svars, &h.args[1], 2)?));
                                 }
                                 other => return fail(EP, item, format!("a let, a push or a header assignment in a match arm, found `{}`", canon(other))),
                             }
@@ -758,6 +1048,32 @@ fn endpoint(f: &syn::ItemFn, lib: &syn::File) -> R<(Vec<String>, Vec<Stmt>)> {
                     }
                     out.push(Stmt::AuthMatch { scrutinee, arms });
                     continue;
+                }
+                // for (k, v) in <parameter>[.iter()] { P.push((K, V)); }     the loop `P.extend(<parameter>.iter().map(|(k, v)| (K, V)))` stands for
+                if let syn::Expr::ForLoop(fl) = e {
+                    let (root, calls) = chain(strip_ref(&fl.expr));
+                    let srcp = is_param(strip_ref(root)).filter(|_| calls.iter().all(|c| c.args.is_empty() && (c.method == "iter" || c.method == "into_iter")));
+                    if let (Some(srcp), Some(a), syn::Pat::Tuple(t)) = (srcp, &acc, &*fl.pat) {
+                        let mut cenv = Env::default();
+                        for (k, p) in t.elems.iter().enumerate() {
+                            if let Some(bn) = pat_binder(p) {
+                                cenv.rename(&bn, &format!("it{k}"));
+                            }
+                        }
+                        if let [syn::Stmt::Expr(x, _)] = fl.body.stmts.as_slice() {
+                            if let Some(t) = push_call(a, x) {
+                                out.push(Stmt::Extend { source: srcp, map: canon(&cenv.resolve(t)) });
+                                continue;
+                            }
+                        }
+                    }
+                    return fail(EP, item, format!("`for (k, v) in <parameter> {{ <params>.push((..)); }}`, found `{}`", canon(e)));
+                }
+                // P.reserve(n): capacity only
+                if let syn::Expr::MethodCall(m) = e {
+                    if m.method == "reserve" && m.args.len() == 1 && acc.is_some() && ident_of(&m.receiver) == acc {
+                        continue;
+                    }
                 }
                 // P.extend_from_slice(C) / P.extend(C)
                 if let syn::Expr::MethodCall(m) = e {
@@ -938,7 +1254,7 @@ pub fn extract(srcs: &Sources) -> R<String> {
         Some(f) => f,
         None => return fail(EP, "endpoint_request", "the function to exist"),
     };
-    let (ep_params, stmts) = endpoint(epf, lib)?;
+    let (ep_params, stmts) = endpoint(epf, lib, ep)?;
     // every inherent `fn prepare_request`, wherever it lives (Props/GenRequest.lean pins owners and files)
     let mut preps = Vec::new();
     for (file, f) in &srcs.files {
